@@ -220,6 +220,19 @@ def _c_unit_of_last():
                 return
             rec.update({"status": "compiled", "unit": unit, "info": info})
             _STATE["c_budget"] = budget - 1
+            if os.environ.get("TESTREC_HEAP", "0") == "1":
+                # the IR after the backend analyses (with Free statements), for the HeapOK monitor (C08)
+                from .analyzed import analyzed_proc
+                from .export import make_unit
+                from .inputs import gen_inputs
+                ap = analyzed_proc(ir)
+                hu, hex_ = make_unit(rec["prog"] + "|analysed", ap, None, mode="F", frees=True)
+                hu["inputs"] = [{"a": s_} for s_ in gen_inputs(ap, hex_.cfgtypes(), "F", rng, cap=int(os.environ.get("TESTREC_CAP", "3")),
+                                                               max_cells=1500)]
+                hu["features"] = sorted(hex_.features)
+                if hu["inputs"]:
+                    rec["heap_unit"] = hu
+                    rec["analysed_text"] = str(ap)[:4000]
         except ExportError as e:
             rec.update({"status": "export-error", "msg": str(e)[:160]})
         except Exception as e:
@@ -395,7 +408,7 @@ THOROUGH_FILES = QUICK_FILES + ["tests/test_halide_ops.py", "tests/test_range_an
 
 
 def run_tests(files, workdir, repo=None, cap=6, timeout=1500, fwd=True, units=True, purity=True, max_cells=600,
-              edits=False, claims=False, trace_ops="", texts=False, extra_env=None, c_units=0):
+              edits=False, claims=False, trace_ops="", texts=False, extra_env=None, c_units=0, heap=False):
     """Run each test file (optionally split into shards by -k-less item slicing) under the recorder.
     -> (records, per-file info)."""
     from .common import NCPU, REPO, MachineryError
@@ -412,7 +425,7 @@ def run_tests(files, workdir, repo=None, cap=6, timeout=1500, fwd=True, units=Tr
                     "TESTREC_UNITS": "1" if units else "0", "TESTREC_PURITY": "1" if purity else "0",
                     "TESTREC_MAX_CELLS": str(max_cells), "TESTREC_EDITS": "1" if edits else "0",
                     "TESTREC_CLAIMS": "1" if claims else "0", "TESTREC_TRACE_OPS": trace_ops,
-                    "TESTREC_TEXTS": "1" if texts else "0", "TESTREC_C": str(c_units)})
+                    "TESTREC_TEXTS": "1" if texts else "0", "TESTREC_C": str(c_units), "TESTREC_HEAP": "1" if heap else "0"})
         env.update(extra_env or {})
         env.pop("PYTEST_ADDOPTS", None)
         cmd = [sys.executable, "-m", "pytest", "-q", "-x" if False else "-q", "-p", "no:cacheprovider",
@@ -453,11 +466,11 @@ def run_tests(files, workdir, repo=None, cap=6, timeout=1500, fwd=True, units=Tr
 
 
 def test_edges(files, workdir, cap=4, max_cells=600, fwd=False, purity=False, units=True, timeout=1500, edits=False,
-               claims=False, trace_ops="", c_units=0):
+               claims=False, trace_ops="", c_units=0, heap=False):
     """Recorded derivation edges of the repository's tests in the record format of edgecheck.decide_edges
     (prog = test id, args = ordinal of the step in its test file, facts = {}).  -> (edges, info, other records)"""
     recs, info = run_tests(files, workdir, cap=cap, fwd=fwd, units=units, purity=purity, max_cells=max_cells,
-                           timeout=timeout, edits=edits, claims=claims, trace_ops=trace_ops, c_units=c_units)
+                           timeout=timeout, edits=edits, claims=claims, trace_ops=trace_ops, c_units=c_units, heap=heap)
     edges, other = [], []
     seen = set()
     for r in recs:
